@@ -70,6 +70,8 @@ func refTerm(v Val) (string, bool) {
 		return v.S, true
 	case "Iface":
 		return "(iref " + v.S + ")", true
+	case "Slice":
+		return "(sarr " + v.S + ")", true // the backing array
 	}
 	if v.A != nil && (v.A.Kind == "obj" || v.A.Kind == "mem" || v.A.Kind == "arr") {
 		return v.A.Ref, true
@@ -552,10 +554,13 @@ func (e *specEnv) evalCall(n ECall) Val {
 	case "hex":
 		// hex(b): lower-case hex rendering of a byte slice (same uninterpreted function fmt.Sprintf("%0x") uses)
 		v := e.eval(n.Args[0])
+		w.declUF("hexstr", "(declare-fun hexstr ((Array Int Int) Int Int) String)")
+		if at, ok := arrayOf(v); ok && v.Row != "" {
+			return Val{S: fmt.Sprintf("(hexstr %s 0 %d)", v.Row, at.Len()), Sort: "String"}
+		}
 		if v.Sort != "Slice" || e.st == nil {
 			e.fail("hex() of non-slice")
 		}
-		w.declUF("hexstr", "(declare-fun hexstr ((Array Int Int) Int Int) String)")
 		cls := e.st.elemClass(types.Typ[types.Uint8])
 		return Val{S: "(hexstr (select " + e.heapTerm(cls) + " (sarr " + v.S + ")) (soff " + v.S + ") (slen " + v.S + "))", Sort: "String"}
 	case "funcis":
@@ -657,3 +662,12 @@ func (e *specEnv) evalCall(n ECall) Val {
 }
 
 var _ = constant.MakeBool
+
+// arrayOf reports whether v is a Go array value (whose contents, if tracked, are v.Row).
+func arrayOf(v Val) (*types.Array, bool) {
+	if v.T == nil || v.BI != "array" {
+		return nil, false
+	}
+	at, ok := v.T.Underlying().(*types.Array)
+	return at, ok
+}
